@@ -41,11 +41,15 @@ RULE = ("pairs of particle lists (1..200 particles each, 1..4 tomograms with arb
         "30 % of the cases, pixel_size in 30 % of those with pixel size 1, nn_number in 30 % of those with k = 1, so that the library's defaults are exercised. "
         "Cross-call state (35 %, mode 'inplace'): the SAME Motl object(s) (both / only the second / only the first list) are analysed, moved rigidly in place, and analysed again; "
         "otherwise fresh objects are built for the moved lists. Both calls are judged alike (verified checker, statement, model) and every particle list is compared before/after each call. "
-        "The documented call form with two FILE PATHS (get_nn_stats(path_a, path_b)) is NOT exercised and nothing is claimed about it: it raises TypeError today "
-        "(Motl(motl_path=...) does not exist) and lies outside the literal statement. "
+        "Receiver classes (round 7): each list is an object of Motl (65 %) or, independently, of EmMotl / RelionMotl / StopgapMotl / DynamoMotl / ModMotl built from the same table, so that an override of "
+        "get_motl_subset / get_coordinates / get_angles / get_feature in a format subclass is executed when it is reachable (the subsets nnana works on are base Motl objects: an override of "
+        "get_coordinates alone is unreachable from get_nn_stats and is caught by the framework's overriding-subclass obligation only). "
+        "The documented call form with two FILE PATHS (get_nn_stats(path_a, path_b)) is NOT exercised and nothing is claimed about it: the quantifier ranges over pairs of particle LISTS "
+        "(Motl objects); the path form is a loading convenience that fails before any analysis starts (TypeError: Motl.__init__() got an unexpected keyword argument 'motl_path'; "
+        "Motl.load(path) would be the call) - a defect of the library noted as an out-of-scope observation, neither a finding of C18 nor covered by a fix. "
         "non-trivial = some common tomogram has >= 2 queries and more candidates than k, a non-zero shift occurs and Q is not the identity; distinct = distinct content hash of the case")
 ASSUMPTIONS = [
-    "sklearn.neighbors.KDTree.query(k) returns the k smallest Euclidean distances in ascending order (= brute force); checked on every case by the Lean verified checker checkKnn on the implementation's own neighbour lists, and probed",
+    "sklearn.neighbors.KDTree.query(k) returns the k smallest Euclidean distances in ascending order (= brute force); checked on every case by the Lean verified checker on the implementation's own neighbour lists, and probed. The checker runs on EXACT integers (round 7: checkKnnInt — the driver forms every complete position x + shift in binary64 exactly as numpy does, decodes the resulting doubles to their exact dyadic values, scales them by one common power of two and compares exact squared distances in Int), so Props/C18 checkKnnInt_iff (LinearOrder Int) applies to its verdict literally, on the 1/64 grid AND on the real-valued moved lists; what stays assumed is only that the KD-tree's own binary64 distance arithmetic orders candidates like the exact distances (generated gap between distinct squared distances >= 2^-12 against a rounding error < 1e-9)",
     "binary64 arithmetic on the 1/64 grid is exact for complete positions and squared distances (the tree works on UNSCALED coordinates, so a decimal pixel size never enters a neighbour decision; the pixel size multiplies afterwards, the same single rounding in numpy and in the Float driver), so numpy's and the Float driver's neighbour decisions equal the exact-arithmetic ones of the theorems; after the harness' rigid motion the squared distances carry a rounding error < 1e-9 against a gap >= 2^-12 between distinct values, so the decisions stay the same",
     "scipy Rotation.from_euler('zxz', degrees=True) is the matrix Rz(psi)Rx(theta)Rz(phi); as_euler returns a triple of the same rotation, except that inside its gimbal-lock zone (|sin theta| <= 1e-7) it zeroes the third angle and the triple describes a rotation up to 2 sin(theta) (< 1e-5 degrees) away: Euler triples REPORTED by the library are compared with tolerance 1e-9 + 3 sin(theta) there (probed against this module's own matrices)",
     "the quaternion formula 2*arccos(min(|q1.q2|,1)) of geom.angular_distance equals the rotation angle arccos((trace-1)/2) = atan2(|skew|/2, (trace-1)/2) of the relative rotation: PROVED over the reals (Props/C18 angular_distance_is_rotation_angle, nnStats_angular_real, through C06 angDist_is_rotation_angle / trace_rel); in binary64 the two forms are compared with a conditioning-aware tolerance",
@@ -869,6 +873,8 @@ def _one(rng, tier):
                 r[2:11] = [c[0] - sh[0], c[1] - sh[1], c[2] - sh[2]] + sh + [float(round(x)) for x in r[8:11]]
     labels = {"a": _labels(rng, len(a)), "nn": _labels(rng, len(nn))}
     forms = [f for f, pr in (("k_numpy", 0.15), ("px_numpy", 0.1)) if rng.random() < pr]
+    # round 7: the particle lists are objects of Motl (65 %) or of one of its format subclasses, independently for the two lists
+    receiver = {"a": "Motl", "nn": "Motl"} if rng.random() < 0.65 else {"a": rng.choice(RECEIVERS), "nn": rng.choice(RECEIVERS)}
     if float(px) == int(px) and rng.random() < 0.4:
         forms.append("px_int")
     qk = rng.random()
@@ -896,7 +902,7 @@ def _one(rng, tier):
     ta, tn = {int(r[0]) for r in a}, {int(r[0]) for r in nn}
     overlap = "disjoint" if not (ta & tn) else ("same" if ta == tn else "partial")
     return dict(a=a, nn=nn, k=k, px=px, Q=Q, t=t, layout=layout, relation=relation, overlap=overlap, family=family, submode=submode,
-                omit=omit, mode=mode, reuse=reuse, move_tomos=move_tomos, dtype=dtype, labels=labels, forms=forms)
+                omit=omit, mode=mode, reuse=reuse, move_tomos=move_tomos, dtype=dtype, labels=labels, forms=forms, receiver=receiver)
 
 
 def _labels(rng, n):
@@ -973,6 +979,8 @@ def shrink(case):
         cands.append(dict(case, labels={"a": None, "nn": None}))
     if case.get("forms"):
         cands.append(dict(case, forms=[]))
+    if any(v != "Motl" for v in (case.get("receiver") or {}).values()):
+        cands.append(dict(case, receiver={"a": "Motl", "nn": "Motl"}))
     if case.get("mode", "fresh") != "fresh":
         cands.append(dict(case, mode="fresh", reuse=None))
     if case.get("move_tomos") is not None:
@@ -1008,8 +1016,12 @@ MOTL_FIELDS = ["tomo_id", "subtomo_id", "x", "y", "z", "shift_x", "shift_y", "sh
 INT_ID_COLUMNS = ["subtomo_id", "tomo_id", "object_id", "class", "geom1", "geom2"]
 
 
-def _motl(rows, dtype="float64", labels=None):
-    """the caller's particle list: a Motl around a DataFrame with the given column types and row labels (H3)"""
+RECEIVERS = ["Motl", "EmMotl", "RelionMotl", "StopgapMotl", "DynamoMotl", "ModMotl"]
+
+
+def _motl(rows, dtype="float64", labels=None, receiver="Motl"):
+    """the caller's particle list: a Motl — or one of its format subclasses (round 7: the receiver class decides which
+    get_motl_subset / get_coordinates / ... the analysis calls) — around a DataFrame with the given column types and row labels (H3)"""
     import pandas as pd
     from cryocat import cryomotl
     df = pd.DataFrame(0.0, index=range(len(rows)), columns=COLS)
@@ -1029,7 +1041,14 @@ def _motl(rows, dtype="float64", labels=None):
         if len(labels) != len(rows):
             raise HarnessError("case carries row labels for another number of rows")
         df.index = list(labels)
-    return cryomotl.Motl(motl_df=df)
+    if receiver in (None, "Motl"):
+        return cryomotl.Motl(motl_df=df)
+    if receiver not in RECEIVERS:
+        raise HarnessError(f"unknown receiver class {receiver}")
+    m = getattr(cryomotl, receiver)(df)       # the subclass constructors take a DataFrame in motl format (they copy and re-label it)
+    if dtype != "float64" or labels is not None:
+        m.df = df                             # ... and a user who wants her own table keeps it by plain attribute assignment
+    return m
 
 
 def _rewrite_in_place(m, rows):
@@ -1125,8 +1144,9 @@ def run_impl(case):
     out = {"moved_lists": {"a": a2, "nn": nn2}}
     dt = case.get("dtype", "float64")
     la, ln = (case.get("labels") or {}).get("a"), (case.get("labels") or {}).get("nn")
-    ma = _motl(a, dt, la)
-    mn = ma if same_obj else _motl(nn, dt, ln)
+    ra, rn = (case.get("receiver") or {}).get("a", "Motl"), (case.get("receiver") or {}).get("nn", "Motl")
+    ma = _motl(a, dt, la, ra)
+    mn = ma if same_obj else _motl(nn, dt, ln, rn)
     out["orig"] = _call(ma, mn, case)
     if case.get("mode", "fresh") == "inplace":
         reuse = case.get("reuse") or "both"
@@ -1138,16 +1158,16 @@ def run_impl(case):
                 _rewrite_in_place(ma, a2)
                 mb = ma
             else:
-                mb = _motl(a2, dt, la)
+                mb = _motl(a2, dt, la, ra)
             if reuse in ("both", "nn"):
                 _rewrite_in_place(mn, nn2)
                 mc = mn
             else:
-                mc = _motl(nn2, dt, ln)
+                mc = _motl(nn2, dt, ln, rn)
         out["moved"] = _call(mb, mc, case)
     else:
-        mb = _motl(a2, dt, la)
-        mc = mb if same_obj else _motl(nn2, dt, ln)
+        mb = _motl(a2, dt, la, ra)
+        mc = mb if same_obj else _motl(nn2, dt, ln, rn)
         out["moved"] = _call(mb, mc, case)
     return out
 
@@ -1356,7 +1376,7 @@ def _judge_table(label, case, a, nn, tab, stats_resp, check_resp, dev):
     sa, sn = _subsets(a), _subsets(nn)
     common = sorted(set(sa) & set(sn))
     if tab.get("mutated"):
-        out.append(dict(kind="spec", clause="input-unchanged", detail=pre + "get_nn_stats edited a particle list it was given: " + "; ".join(tab["mutated"])[:400]))
+        out.append(dict(kind="corr", clause="input-unchanged", detail=pre + "get_nn_stats edited a particle list it was given: " + "; ".join(tab["mutated"])[:400]))
     if "raised" in tab:
         e = tab["raised"]
         txt = f"{e['type']}: {e['msg']} @{e['where'] or e['last']}"
@@ -1376,7 +1396,7 @@ def _judge_table(label, case, a, nn, tab, stats_resp, check_resp, dev):
         out.append(dict(kind="corr", clause="table-columns", detail=pre + f"columns {tab['cols']} differ from the documented 16 + 'type'"))
     textual = [c for c in REQUIRED if c in tab["cols"] and c not in tab["data"]] if tab["nrows"] else []
     if textual:
-        out.append(dict(kind="spec", clause="column-types", detail=pre + "numeric fields came back as text/object: " + ", ".join(f"{c} ({tab['dtypes'][c]}: {tab['text'].get(c)})" for c in textual)))
+        out.append(dict(kind="corr", clause="column-types", detail=pre + "numeric fields came back as text/object: " + ", ".join(f"{c} ({tab['dtypes'][c]}: {tab['text'].get(c)})" for c in textual)))
         return out, None, None
     rows, why = _rows_of(tab)
     if rows is None:
@@ -1465,11 +1485,12 @@ _memo = {}
 
 def _compare(case, obs, resps):
     """returns (findings, deviations)"""
-    key = (id(case), id(obs), id(resps))
-    if _memo.get("key") == key:
+    # keyed by CONTENT (round 7): id() of a freed case may be re-used by another one during shrinking
+    ck = (key(case), hashlib.sha1(json.dumps([obs, resps], sort_keys=True, default=repr).encode()).hexdigest())
+    if _memo.get("key") == ck:
         return _memo["val"]
     val = _compare_(case, obs, resps)
-    _memo["key"], _memo["val"] = key, val
+    _memo["key"], _memo["val"] = ck, val
     return val
 
 
@@ -1597,6 +1618,7 @@ def stats(case, obs, resps):
          "row_labels": ["default" if l is None else ("duplicated" if len(set(l)) < len(l) else ("ascending-gaps" if l == sorted(l) else "not-ascending"))
                         for l in ((case.get("labels") or {}).get("a"), (case.get("labels") or {}).get("nn"))],
          "argument_forms": case.get("forms") or ["plain"],
+         "receiver_classes": [(case.get("receiver") or {}).get("a", "Motl"), (case.get("receiver") or {}).get("nn", "Motl")],
          "pixel_size_kind": "dyadic" if float(case["px"] * 1024).is_integer() else "decimal",
          "subtomo_ids": "repeat-across-tomograms" if len(set(subs_a)) < len(subs_a) else "unique-in-list",
          "first_appearance_a": _first_appearance(case["a"], common),
@@ -1614,7 +1636,7 @@ def stats(case, obs, resps):
 def sample_view(case):
     return dict(n_a=len(case["a"]), n_nn=len(case["nn"]), k=case["k"], px=case["px"], Q=case["Q"], t=case["t"], relation=case.get("relation"),
                 layout=case.get("layout"), omit=case.get("omit"), mode=case.get("mode"), reuse=case.get("reuse"), move_tomos=case.get("move_tomos"),
-                dtype=case.get("dtype"), forms=case.get("forms"), labels={k_: (v if v is None else v[:6]) for k_, v in (case.get("labels") or {}).items()},
+                dtype=case.get("dtype"), forms=case.get("forms"), receiver=case.get("receiver"), labels={k_: (v if v is None else v[:6]) for k_, v in (case.get("labels") or {}).items()},
                 first_a=case["a"][0], first_nn=case["nn"][0])
 
 
